@@ -14,9 +14,10 @@ LEVEL_TEXT = ("Theorems in Coq (Props/C08.v): for EVERY message sequence deliver
               "The attacker catalogue of the property (about 1 800 scripts quick, 15 000 thorough) is executed against real endpoints and outcomes compared with the models.")
 LEVEL_NOTE = ("Idealisation: symbolic signatures / encryption / PRF / hash (free term algebra). Chain verification is an abstract predicate per certificate (C10 owns x509.Verify); "
               "the premises of 'authentication' (CA unforgeability + honest server keys, secrecy discipline of honest parties, network = Dolev-Yao derivation) are explicit hypotheses, "
-              "shown satisfiable on the honest run. 'agreement' assumes the client's accepted Finished is the one the server sent (which 'authentication' shows the network cannot forge); "
-              "the multi-session trace composition of the two is not mechanised. Scope: GMSSL client with the two ECC suites, full handshakes (no resumption: C16); servers in all modes "
-              "with tickets off. The standard-TLS client is not covered by the C08 theorems (the server theorems cover TLS servers too).")
+              "shown satisfiable on the honest run. The single-connection 'agreement' assumes the client's accepted Finished is the one the server sent; the MULTI-SESSION theorems "
+              "(C08_sessions_secrecy, C08_agreement_sessions: any number of concurrent GMSSL clients and servers, the attacker delivering and replaying anything it can derive) need no premise "
+              "about the network - their scope is GMSSL clients without cached session and servers with tickets off, the certification premise (keys in Verify-accepted certificates are not attacker keys) "
+              "and unshared pre-master randomness. Resumption and the standard-TLS client are covered per connection (C08_*_with_resumption, C08_tls_client_complete_requires), not inside the multi-session model.")
 TRUSTED_BASE = [
     "models coq/HS/HSModel.v, HSTerms.v written by hand from gmtls/*.go; tied by the correspondence runs of this check and of C15",
     "extraction: ExtrOcamlBasic only; OCaml runner ocaml/hs/main.ml (term-level rendering of each attack script)",
@@ -25,7 +26,7 @@ TRUSTED_BASE = [
 ASSUMPTIONS = [
     "symbolic (perfect) cryptography: a signature verifies iff built with the matching private key over the same payload; a ciphertext opens only with the private key; PRF and Hash are injective and one-way",
     "network attacker = Dolev-Yao derivation (HSAuth.derives): knows all public terms and observed messages, its own keys and randomness; replays, pairs/projects, encrypts, signs/decrypts with its own keys",
-    "certification premise: keys named in certificates accepted by the client's Verify are not attacker keys; chain verification itself is an abstract predicate (ids in c_trusted / s_client_trusted)",
+    "certification premise: keys named in certificates accepted by the client's Verify are not attacker keys; chain verification itself is an abstract predicate on the certificate (membership in c_trusted / s_client_trusted)",
     "honest parties send the pre-master and master secrets only encrypted to an honest key, as PRF keys or under a hash (shown for the honest run by an Example)",
     "Config as in C15: Renegotiation=Never, no GetConfigForClient/VerifyPeerCertificate callbacks, session tickets disabled on the server for the C08 theorems",
 ]
